@@ -729,6 +729,87 @@ func init() {
 		})
 	}}
 
+	// ------------------------------------------------------------------ producing side: messages, contexts and inputs are externally supplied too
+	R["ed25519.PrivateKey.Sign(message,context)"] = c19Row{Nominal: [3]int{-2, -2, -1}, NMax: 15, Run: func(c c19Case, a [3][]byte, r *h.R) {
+		name := "ed25519.PrivateKey.Sign"
+		sk := ed25519.NewKeyFromSeed(c19Seeded(41, 32))
+		opts := &ed25519.Options{Context: string(a[1]), AddedRandomness: c.N&1 != 0, SelfVerify: c.N&2 != 0}
+		if c.N&4 != 0 {
+			opts.Hash = crypto.SHA512
+		}
+		if c.N&8 != 0 {
+			opts.Verify = ed25519.VerifyOptionsStdLib
+		}
+		wantErr := len(a[1]) > 255 || (opts.Hash == crypto.SHA512 && len(a[0]) != 64)
+		c19NoPanic(r, name, func() {
+			sig, err := sk.Sign(&c19Entropy{b: []byte{3, 1, 4, 1, 5}}, a[0], opts)
+			if (err != nil) != wantErr || (err != nil && sig != nil) {
+				r.Fail(name+":wrong-decision", "msg-len=%d ctx-len=%d opt=%d err=%v want-error=%v", len(a[0]), len(a[1]), c.N, err, wantErr)
+				return
+			}
+			if err != nil {
+				return
+			}
+			if len(sig) != 64 || !ed25519.VerifyWithOptions(sk.Public().(ed25519.PublicKey), a[0], sig, opts) {
+				r.Fail(name+":signature-does-not-verify", "msg-len=%d ctx-len=%d opt=%d sig=%x", len(a[0]), len(a[1]), c.N, sig)
+			}
+		})
+	}}
+	R["ecvrf.Prove(alpha)"] = c19Row{Nominal: [3]int{-2, -1, -1}, NMax: 3, Run: func(c c19Case, a [3][]byte, r *h.R) {
+		name := "ecvrf.Prove"
+		sk := ed25519.NewKeyFromSeed(c19Seeded(43, 32))
+		pk := sk.Public().(ed25519.PublicKey)
+		c19NoPanic(r, name, func() {
+			var (
+				pi  []byte
+				err error
+			)
+			switch c.N {
+			case 0:
+				pi = ecvrf.Prove(sk, a[0])
+			case 1:
+				pi = ecvrf.Prove_v10(sk, a[0])
+			case 2:
+				pi, err = ecvrf.ProveWithAddedRandomness(&c19Entropy{b: []byte{2, 7, 1, 8}}, sk, a[0])
+			case 3:
+				pi, err = ecvrf.ProveWithAddedRandomness_v10(&c19Entropy{b: []byte{2, 7, 1, 8}}, sk, a[0])
+			}
+			if err != nil || len(pi) != ecvrf.ProofSize {
+				r.Fail(name+":no-proof-for-valid-input", "alpha-len=%d variant=%d err=%v len=%d", len(a[0]), c.N, err, len(pi))
+				return
+			}
+			var (
+				ok   bool
+				beta []byte
+			)
+			if c.N&1 == 0 {
+				ok, beta = ecvrf.Verify(pk, pi, a[0])
+			} else {
+				ok, beta = ecvrf.Verify_v10(pk, pi, a[0])
+			}
+			b2, err := ecvrf.ProofToHash(pi)
+			if !ok || err != nil || !bytes.Equal(beta, b2) {
+				r.Fail(name+":own-proof-rejected", "alpha-len=%d variant=%d ok=%v err=%v", len(a[0]), c.N, ok, err)
+			}
+		})
+	}}
+	R["sr25519.KeyPair.Sign(message,context)"] = c19Row{Nominal: [3]int{-2, -2, -1}, Run: func(c c19Case, a [3][]byte, r *h.R) {
+		name := "sr25519.KeyPair.Sign"
+		c19NoPanic(r, name, func() {
+			msk, _ := sr25519.NewMiniSecretKeyFromBytes(c19Seeded(47, 32))
+			kp := msk.ExpandUniform().KeyPair()
+			sc := sr25519.NewSigningContext(a[1])
+			sig, err := kp.Sign(&c19Entropy{b: []byte{1, 6, 1, 8}}, sc.NewTranscriptBytes(a[0]))
+			if err != nil || sig == nil {
+				r.Fail(name+":error-on-valid-input", "msg-len=%d ctx-len=%d err=%v", len(a[0]), len(a[1]), err)
+				return
+			}
+			if !kp.PublicKey().Verify(sc.NewTranscriptBytes(a[0]), sig) {
+				r.Fail(name+":own-signature-rejected", "msg-len=%d ctx-len=%d", len(a[0]), len(a[1]))
+			}
+		})
+	}}
+
 	// ------------------------------------------------------------------ ECVRF
 	R["ecvrf.Verify"] = c19Row{Nominal: [3]int{32, 80, -2}, NMax: 1, Valid: func(seed uint64) [3][]byte {
 		sk := ed25519.NewKeyFromSeed(c19Seeded(seed, 32))
@@ -771,23 +852,46 @@ func init() {
 	}}
 
 	// ------------------------------------------------------------------ X25519
-	R["x25519.X25519"] = c19Row{Nominal: [3]int{32, 32, -1}, Run: func(c c19Case, a [3][]byte, r *h.R) {
+	R["x25519.X25519"] = c19Row{Nominal: [3]int{32, 32, -1}, NMax: 7, Run: func(c c19Case, a [3][]byte, r *h.R) {
 		name := "x25519.X25519"
+		point := a[1]
+		switch c.N % 4 {
+		case 1:
+			// the point is a VIEW of the package's own Basepoint slice with the
+			// length of the generated argument (same first element as the slice the
+			// fixed-base fast path recognises, wrong length unless 32)
+			if len(a[1]) <= 32 {
+				point = x25519.Basepoint[:len(a[1])]
+			}
+		case 2:
+			if len(a[1]) == 32 {
+				point = x25519.Basepoint
+			}
+		}
 		c19NoPanic(r, name, func() {
-			out, err := x25519.X25519(a[0], a[1])
-			if len(a[0]) != 32 || len(a[1]) != 32 {
+			out, err := x25519.X25519(a[0], point)
+			if len(a[0]) != 32 || len(point) != 32 {
 				if err == nil || out != nil {
-					r.Fail(name+":accepted-wrong-length", "scalar-len=%d point-len=%d", len(a[0]), len(a[1]))
+					r.Fail(name+":accepted-wrong-length", "scalar-len=%d point-len=%d view-mode=%d", len(a[0]), len(point), c.N%4)
 				}
 				return
 			}
-			if err == nil && (len(out) != 32 || bytes.Equal(out, make([]byte, 32))) {
-				r.Fail(name+":returned-all-zero-without-error", "scalar=%x point=%x", a[0], a[1])
+			// error exactly for low-order points (all-zero shared secret), otherwise RFC 7748's value
+			want := ref.X25519(a[0], point)
+			if zero := bytes.Equal(want, make([]byte, 32)); (err != nil) != zero {
+				r.Fail(name+":wrong-decision", "scalar=%x point=%x err=%v reference-output-all-zero=%v", a[0], point, err, zero)
+				return
+			}
+			if err == nil && !bytes.Equal(out, want) {
+				r.Fail(name+":wrong-output", "scalar=%x point=%x got=%x want=%x", a[0], point, out, want)
 			}
 			if err != nil && out != nil {
 				r.Fail(name+":output-with-error", "")
 			}
 		})
+		if !bytes.Equal(x25519.Basepoint, append([]byte{9}, make([]byte, 31)...)) {
+			r.Fail("x25519.Basepoint:modified", "%x", x25519.Basepoint)
+		}
 	}}
 	R["x25519.EdPublicKeyToX25519"] = c19Row{Nominal: [3]int{32, -1, -1}, Run: func(c c19Case, a [3][]byte, r *h.R) {
 		name := "x25519.EdPublicKeyToX25519"
@@ -1032,11 +1136,19 @@ func init() {
 	}}
 
 	// ------------------------------------------------------------------ h2c / merlin
-	R["h2c.expand+suites"] = c19Row{Nominal: [3]int{-2, -2, -1}, NMax: 200, Run: func(c c19Case, a [3][]byte, r *h.R) {
+	R["h2c.expand+suites"] = c19Row{Nominal: [3]int{-2, -2, -1}, NMax: 431, Run: func(c c19Case, a [3][]byte, r *h.R) {
 		// a[0] = DST, a[1] = message, N selects the output length and hash
 		lens := []int{0, 1, 31, 32, 33, 63, 64, 65, 127, 128, 129, 255 * 32, 255*32 + 1, 255 * 64, 255*64 + 1, 65535, 65536, 70000}
 		n := lens[c.N%len(lens)]
-		hashes := []crypto.Hash{crypto.SHA512, crypto.SHA256, crypto.SHA384, crypto.SHA512_256, crypto.SHA1, crypto.MD5}
+		// every hash function linked into the binary (x/crypto/sha3 registers the
+		// SHA-3 family: 136/104/72-byte blocks, i.e. wider and narrower than SHA-2's)
+		var hashes []crypto.Hash
+		for _, hc := range []crypto.Hash{crypto.SHA512, crypto.SHA256, crypto.SHA384, crypto.SHA512_256, crypto.SHA1, crypto.MD5,
+			crypto.SHA3_256, crypto.SHA3_384, crypto.SHA3_512, crypto.SHA3_224, crypto.SHA224, crypto.SHA512_224} {
+			if hc.Available() {
+				hashes = append(hashes, hc)
+			}
+		}
 		hf := hashes[(c.N/len(lens))%len(hashes)]
 		out := make([]byte, n)
 		c19NoPanic(r, "h2c.ExpandMessageXMD", func() {
@@ -1072,6 +1184,13 @@ func init() {
 			p2, err := h2c.Edwards25519_XMD_ELL2_RO(hf, a[0], a[1])
 			if (err != nil) != (hf.Size() < 32) || (err != nil && p2 != nil) {
 				r.Fail("h2c.Edwards25519_XMD_ELL2_RO:wrong-decision", "hash=%v err=%v", hf, err)
+			}
+			p3, err := h2c.Edwards25519_XMD_ELL2_NU(hf, a[0], a[1])
+			if (err != nil) != (hf.Size() < 32) || (err != nil && p3 != nil) {
+				r.Fail("h2c.Edwards25519_XMD_ELL2_NU:wrong-decision", "hash=%v err=%v", hf, err)
+			}
+			if _, err := h2c.Edwards25519_XOF_ELL2_RO(sha3.NewShake256(), a[0], a[1]); err != nil {
+				r.Fail("h2c.Edwards25519_XOF_ELL2_RO:error-on-valid-input", "%v", err)
 			}
 			if _, err := h2c.Edwards25519_XOF_ELL2_NU(sha3.NewShake128(), a[0], a[1]); err != nil {
 				r.Fail("h2c.Edwards25519_XOF_ELL2_NU:error-on-valid-input", "%v", err)
